@@ -213,6 +213,10 @@ class Sys:
         if isinstance(rv, VAgg) and rv.name in ('Result', 'Option', 'Poll') and rv.vname:
             inner = next(iter(rv.fields.values()), None)
             return rv.vname + ('(' + self.describe_result(st, inner) + ')' if inner is not None and inner is not UNIT else '')
+        if isinstance(rv, VAgg) and rv.name in ('Canceled', 'SendError'):
+            return 'ActorError:' + rv.name
+        if isinstance(rv, VAgg) and rv.name == 'ActorError' and rv.vname:
+            return 'ActorError:' + rv.vname
         if isinstance(rv, VAgg) and rv.name == 'ActorError':
             return 'ActorError:' + str((rv.extra or {}).get('from', rv.vname or ''))
         if isinstance(rv, VAgg) and rv.name == 'ActorError' or (isinstance(rv, VAgg) and rv.vname in ('AlreadyStopped', 'Timeout', 'ServiceNotFound', 'ServiceStillRunning')):
